@@ -63,6 +63,7 @@ type xrun struct {
 	byFam    map[string]int
 	deadline time.Duration
 	maxAlloc uint64
+	famAlloc map[string]uint64
 	sample   []metrics.Sample
 }
 
@@ -103,6 +104,9 @@ func (x *xrun) call(family, entry, note string, input []byte, bound uint64, f fu
 	if alloc > x.maxAlloc {
 		x.maxAlloc = alloc
 	}
+	if alloc > x.famAlloc[family] {
+		x.famAlloc[family] = alloc
+	}
 	if what == "" && alloc > bound {
 		what = fmt.Sprintf("runaway allocation: %d bytes allocated during the call (bound %d)", alloc, bound)
 	}
@@ -118,9 +122,9 @@ func (x *xrun) call(family, entry, note string, input []byte, bound uint64, f fu
 }
 
 const (
-	boundSmall = 24 << 20 // inputs of a few KiB never need more
-	boundBlob  = 33 << 20 // just above the 32 MiB signature blob cap
-	boundMan   = 4<<20 + 1<<19
+	boundSmall  = 24 << 20 // inputs of a few KiB never need more
+	boundGraph  = 3 << 20  // below the 4 MiB manifest cap: content declared above a cap must be refused unread
+	boundLayout = 16 << 20 // oras-go's own loading of a layout reads manifests up to their declared size
 )
 
 // ---------- mutators ----------
@@ -276,7 +280,10 @@ func mutateTree(r *Rng, v any, depth int) any {
 			}
 			return "x"
 		case 3:
-			return strings.Repeat(t, 2+r.Intn(50))
+			if k := 2 + r.Intn(50); len(t)*k <= 1<<16 {
+				return strings.Repeat(t, k)
+			}
+			return t
 		}
 		return Pick(r, []string{"*", "", " ", "skip", "strict", "ca:", ":", "x509.subject:", "x509.subject: CN=", "ca:..", "tsa:x", "a:b:c", "../x", "1.0", "2.0"})
 	}
@@ -479,7 +486,7 @@ func mutateCOSE(r *Rng, env []byte) []byte {
 
 func explore(a *Args, r *Rng, w *CaseWriter, firstID int64) error {
 	debug.SetMemoryLimit(3 << 30)
-	x := &xrun{w: w, id: firstID, byFam: map[string]int{}, deadline: 20 * time.Second,
+	x := &xrun{w: w, id: firstID, byFam: map[string]int{}, famAlloc: map[string]uint64{}, deadline: 20 * time.Second,
 		sample: []metrics.Sample{{Name: "/gc/heap/allocs:bytes"}}}
 	thorough := a.Tier == "thorough"
 	scale := func(quick, thor int) int {
@@ -496,20 +503,28 @@ func explore(a *Args, r *Rng, w *CaseWriter, firstID int64) error {
 	e := newEnv()
 	ctx := context.Background()
 
-	exploreEnvelopes(x, r, e, ctx, scale(9000, 400000))
-	exploreDocuments(x, r, e, ctx, tmp, scale(9000, 300000))
-	exploreCRL(x, r, ctx, tmp, scale(1500, 60000))
-	exploreGraph(x, r, e, ctx, scale(2500, 100000))
-	exploreLayouts(x, r, e, ctx, tmp, scale(150, 4000))
-	exploreSignerPlugin(x, r, e, ctx, scale(1500, 60000))
-	explorePluginProcess(x, r, e, ctx, tmp, scale(120, 3000))
+	secs := map[string]float64{}
+	timed := func(name string, f func()) {
+		t := time.Now()
+		f()
+		secs[name] = float64(time.Since(t).Milliseconds()) / 1000
+	}
+	timed("envelope", func() { exploreEnvelopes(x, r, e, ctx, scale(9000, 400000)) })
+	timed("document", func() { exploreDocuments(x, r, e, ctx, tmp, scale(9000, 300000)) })
+	timed("crl-cache", func() { exploreCRL(x, r, ctx, tmp, scale(1500, 60000)) })
+	timed("registry-graph", func() { exploreGraph(x, r, e, ctx, scale(2500, 100000)) })
+	timed("oci-layout", func() { exploreLayouts(x, r, e, ctx, tmp, scale(150, 4000)) })
+	timed("plugin-answers", func() { exploreSignerPlugin(x, r, e, ctx, scale(1500, 60000)) })
+	timed("plugin-process", func() { explorePluginProcess(x, r, e, ctx, tmp, scale(120, 3000)) })
+	w.Set("exploration_seconds_by_family", secs)
 
 	w.Set("part2", "exploration (Go side only; supports the theorem, is not part of it): exported entry points under recover + deadline + allocation bound on random and mutated inputs")
 	w.Set("exploration_inputs", x.n)
 	w.Set("exploration_inputs_by_family", x.byFam)
 	w.Set("exploration_violations", x.viol)
 	w.Set("exploration_max_allocation_bytes_in_one_call", x.maxAlloc)
-	w.Set("exploration_guards", fmt.Sprintf("recover around every call; deadline %v per call; allocation bound %d MiB per call (33 MiB where a signature blob under the 32 MiB cap may legitimately be read, 4.5 MiB for manifests); soft memory limit 3 GiB", x.deadline, boundSmall>>20))
+	w.Set("exploration_max_allocation_bytes_by_family", x.famAlloc)
+	w.Set("exploration_guards", fmt.Sprintf("recover around every call; deadline %v per call; allocation bound %d MiB per call (3 MiB for scripted registry content, 16 MiB for on-disk layouts: content declared just above the 4 MiB / 32 MiB caps must be refused unread); soft memory limit 3 GiB", x.deadline, boundSmall>>20))
 	return nil
 }
 
@@ -838,8 +853,11 @@ func (f *fakeTarget) Predecessors(ctx context.Context, d ocispec.Descriptor) ([]
 	return f.preds, nil
 }
 
-func hostileSize(r *Rng, real int) int64 {
-	switch r.Intn(8) {
+// hostileSize: a declared size that lies about the content. Sizes above the
+// caps of registry/repository.go are chosen just above them: still allocatable,
+// so that a missing cap shows as one large allocation instead of killing the run.
+func hostileSize(r *Rng, real int, manifest bool) int64 {
+	switch r.Intn(6) {
 	case 0:
 		return -1
 	case 1:
@@ -847,13 +865,12 @@ func hostileSize(r *Rng, real int) int64 {
 	case 2:
 		return int64(real) + 1
 	case 3:
-		return 4<<20 + 1 + int64(r.Intn(1<<20)) // above the manifest cap, allocatable
-	case 4:
-		return 32<<20 + 1 + int64(r.Intn(8<<20)) // above the blob cap, allocatable
-	case 5:
 		return int64(real) - 1
 	}
-	return int64(real)
+	if manifest {
+		return 4<<20 + 1 + int64(r.Intn(1<<16)) // just above the 4 MiB manifest cap
+	}
+	return 32<<20 + 1 + int64(r.Intn(1<<16)) // just above the 32 MiB blob cap
 }
 
 func exploreGraph(x *xrun, r *Rng, e *env, ctx context.Context, n int) {
@@ -877,7 +894,7 @@ func exploreGraph(x *xrun, r *Rng, e *env, ctx context.Context, n int) {
 			layer := ocispec.Descriptor{MediaType: MtJWS, Digest: digest.FromBytes(blob), Size: int64(len(blob))}
 			ft.blobs[layer.Digest] = blob
 			if r.Chance(1, 3) {
-				layer.Size = hostileSize(r, len(blob))
+				layer.Size = hostileSize(r, len(blob), false)
 			}
 			if r.Chance(1, 8) {
 				layer.Digest = digest.Digest(Pick(r, []string{"", "sha256:zz", "md5:00", "sha256:" + strings.Repeat("0", 64), "sha512:00"}))
@@ -913,7 +930,7 @@ func exploreGraph(x *xrun, r *Rng, e *env, ctx context.Context, n int) {
 			md := ocispec.Descriptor{MediaType: mt, Digest: digest.FromBytes(mb), Size: int64(len(mb)), ArtifactType: artNotation}
 			ft.blobs[md.Digest] = mb
 			if r.Chance(1, 4) {
-				md.Size = hostileSize(r, len(mb))
+				md.Size = hostileSize(r, len(mb), true)
 			}
 			if r.Chance(1, 10) {
 				md.MediaType = Pick(r, []string{"", "text/plain", ocispec.MediaTypeImageIndex})
@@ -925,7 +942,7 @@ func exploreGraph(x *xrun, r *Rng, e *env, ctx context.Context, n int) {
 		}
 		repo := registry.NewRepository(ft)
 		desc, _ := json.Marshal(ft.preds)
-		x.call("registry-graph", "registry.Repository + notation.Verify", "", desc, boundBlob, func() {
+		x.call("registry-graph", "registry.Repository + notation.Verify", "", desc, boundGraph, func() {
 			repo.Resolve(ctx, subject.Digest.String())
 			repo.ListSignatures(ctx, subject, func(ms []ocispec.Descriptor) error {
 				for _, m := range ms {
@@ -969,7 +986,7 @@ func exploreLayouts(x *xrun, r *Rng, e *env, ctx context.Context, tmp string, n 
 		layer := put(sig)
 		layer.MediaType = MtJWS
 		if r.Chance(1, 3) {
-			layer.Size = hostileSize(r, len(sig))
+			layer.Size = hostileSize(r, len(sig), false)
 		}
 		if r.Chance(1, 6) {
 			layer.Digest = digest.FromString("dangling")
@@ -985,7 +1002,7 @@ func exploreLayouts(x *xrun, r *Rng, e *env, ctx context.Context, tmp string, n 
 		md.MediaType = ocispec.MediaTypeImageManifest
 		md.ArtifactType = artNotation
 		if r.Chance(1, 4) {
-			md.Size = hostileSize(r, len(mb))
+			md.Size = hostileSize(r, len(mb), true)
 		}
 		ad2 := ad
 		ad2.Annotations = map[string]string{"org.opencontainers.image.ref.name": "v1"}
@@ -1000,7 +1017,7 @@ func exploreLayouts(x *xrun, r *Rng, e *env, ctx context.Context, tmp string, n 
 			lay = mutateJSON(r, lay)
 		}
 		os.WriteFile(filepath.Join(root, "oci-layout"), lay, 0o644)
-		x.call("oci-layout", "registry.NewOCIRepository + notation.Verify", root, ib, boundBlob, func() {
+		x.call("oci-layout", "registry.NewOCIRepository + notation.Verify", root, ib, boundLayout, func() {
 			repo, err := registry.NewOCIRepository(root, registry.RepositoryOptions{})
 			if err != nil {
 				return
